@@ -261,6 +261,8 @@ impl Prop for C11 {
         if tier != Tier::Thorough {
             return Vec::new();
         }
-        heap_backend_extra("C11", seed, ev)
+        let mut v = heap_backend_extra("C11", seed, ev);
+        v.extend(fuzz_extra("C11", seed, ev));
+        v
     }
 }
